@@ -27,12 +27,6 @@ type harnessMeta struct {
 	TimeoutT int      `json:"timeout_thorough_s"`
 }
 
-// tryReplay: attempt to turn a solver model into a failing run of the real code.
-// (Models of quantified obligations are rarely produced; replays of known defect classes are kept as harnesses.)
-func tryReplay(o *runOpts, ob *Obl, rep map[string]any) (bool, string) {
-	return false, ""
-}
-
 func runBoundedHarness(o *runOpts, name string) boundedResult {
 	res := boundedResult{Name: name}
 	dir := filepath.Join(o.verif, "harness", name)
